@@ -6,6 +6,7 @@ import (
 	"runtime"
 	"sync"
 	"testing"
+	"time"
 
 	"go.opentelemetry.io/otel/sdk/resource"
 	sdktrace "go.opentelemetry.io/otel/sdk/trace"
@@ -26,6 +27,16 @@ type COp struct {
 type ConcCase struct {
 	Sampler string  `json:"sampler"` // always | default | never | ratio | parent_ratio
 	G       [][]COp `json:"g"`
+	// Proc: "" / "simple" = SimpleSpanProcessor; "batch" = BatchSpanProcessor
+	// whose schedule (BatchTimeout 1 ms) and full batches (MaxExportBatchSize
+	// BatchSize) hand spans over WHILE the goroutines end more of them;
+	// "batch_blocking" = the same WithBlocking() and a queue of QueueSize. The
+	// non-blocking queue keeps its default size (2048), which the at most 241
+	// spans of a program cannot fill. The export clause is judged after
+	// Shutdown.
+	Proc      string `json:"proc,omitempty"`
+	BatchSize int    `json:"batch_size,omitempty"`
+	QueueSize int    `json:"queue_size,omitempty"`
 }
 
 const concGoroutines = 8
@@ -33,6 +44,13 @@ const concRounds = 2
 
 func genConc(t *rapid.T) ConcCase {
 	c := ConcCase{Sampler: rapid.SampledFrom([]string{"always", "always", "default", "default", "never", "ratio", "parent_ratio"}).Draw(t, "sampler")}
+	c.Proc = rapid.SampledFrom([]string{"simple", "simple", "batch", "batch_blocking"}).Draw(t, "proc")
+	if c.Proc != "simple" {
+		c.BatchSize = rapid.SampledFrom([]int{1, 2, 3, 7, 16, 512}).Draw(t, "batch_size")
+	}
+	if c.Proc == "batch_blocking" {
+		c.QueueSize = rapid.SampledFrom([]int{0, 1, 2, 8, 2048}).Draw(t, "queue_size")
+	}
 	for g := 0; g < concGoroutines; g++ {
 		n := rapid.IntRange(4, 30).Draw(t, "nops")
 		ops := make([]COp, n)
@@ -68,9 +86,22 @@ type cspan struct {
 
 func runConcOnce(c ConcCase, bad func(kind, format string, a ...any), info *vk.Info) {
 	exp := &memExporter{}
-	opts := []sdktrace.TracerProviderOption{
-		sdktrace.WithResource(resource.Empty()),
-		sdktrace.WithSpanProcessor(sdktrace.NewSimpleSpanProcessor(exp)),
+	opts := []sdktrace.TracerProviderOption{sdktrace.WithResource(resource.Empty())}
+	switch c.Proc {
+	case "batch", "batch_blocking":
+		bo := []sdktrace.BatchSpanProcessorOption{sdktrace.WithBatchTimeout(time.Millisecond)}
+		if c.BatchSize > 0 {
+			bo = append(bo, sdktrace.WithMaxExportBatchSize(c.BatchSize))
+		}
+		if c.Proc == "batch_blocking" {
+			bo = append(bo, sdktrace.WithBlocking())
+			if c.QueueSize >= 0 {
+				bo = append(bo, sdktrace.WithMaxQueueSize(c.QueueSize))
+			}
+		}
+		opts = append(opts, sdktrace.WithSpanProcessor(sdktrace.NewBatchSpanProcessor(exp, bo...)))
+	default:
+		opts = append(opts, sdktrace.WithSpanProcessor(sdktrace.NewSimpleSpanProcessor(exp)))
 	}
 	switch c.Sampler {
 	case "always":
@@ -83,7 +114,12 @@ func runConcOnce(c ConcCase, bad func(kind, format string, a ...any), info *vk.I
 		opts = append(opts, sdktrace.WithSampler(sdktrace.ParentBased(sdktrace.TraceIDRatioBased(0.5))))
 	}
 	tp := sdktrace.NewTracerProvider(opts...) // default (random) ID generator
-	defer func() { _ = tp.Shutdown(context.Background()) }()
+	shut := false
+	defer func() {
+		if !shut {
+			_ = tp.Shutdown(context.Background())
+		}
+	}()
 
 	sharedCtx, sharedSpan := tp.Tracer("c09").Start(context.Background(), "shared")
 	shared := &cspan{span: sharedSpan, ctx: sharedCtx, sc: sharedSpan.SpanContext(), root: true, g: -1}
@@ -189,6 +225,12 @@ func runConcOnce(c ConcCase, bad func(kind, format string, a ...any), info *vk.I
 			bad("recording_mismatch", "%s: span not ended, sampled %v, IsRecording %v", where, sampled, s.span.IsRecording())
 		}
 	}
+	if c.Proc == "batch" || c.Proc == "batch_blocking" {
+		// Shutdown drains the batch processor: afterwards every span it was
+		// given has been handed over
+		_ = tp.Shutdown(context.Background())
+		shut = true
+	}
 	counts := map[trace.SpanID]int{}
 	exp.mu.Lock()
 	for _, ro := range exp.spans {
@@ -233,13 +275,16 @@ func runConc(c ConcCase) ([]vk.Violation, vk.Info) {
 	}
 	info.NonTrivial = len(c.G) >= 2 && roots >= 2 && starts > roots
 	info.Class("sampler:" + c.Sampler)
+	if c.Proc != "" {
+		info.Class("processor:" + c.Proc)
+	}
 	return vs, info
 }
 
 func TestConcurrent(t *testing.T) {
 	vk.Run(t, vk.Spec[ConcCase]{
 		Property: "C09", Check: "concurrent",
-		Rule: "8 goroutines released by one gate, each running 4..30 generated ops {start root, start child of an own span, start child of a span shared by all, start WithNewRoot under an own span, end an own span, optional yields} on one provider with the default ID generator and sampler in {always, never, none configured, ratio 0.5, ParentBased(ratio 0.5)}; executed twice per case, judged by a schedule-independent oracle, built with -race; " +
+		Rule: "8 goroutines released by one gate, each running 4..30 generated ops {start root, start child of an own span, start child of a span shared by all, start WithNewRoot under an own span, end an own span, optional yields} on one provider with a SimpleSpanProcessor (50%) or a BatchSpanProcessor (BatchTimeout 1 ms, MaxExportBatchSize in {1,2,3,7,16,512}, optionally WithBlocking and MaxQueueSize in {0,1,2,8,2048}; shut down before the exporter is read), the default ID generator and sampler in {always, never, none configured, ratio 0.5, ParentBased(ratio 0.5)}; executed twice per case, judged by a schedule-independent oracle, built with -race; " +
 			"non-trivial = at least two roots and at least one child are started; distinct = distinct case encodings",
 		Quick: 500, Thorough: 25000,
 		Gen: genConc, Run: runConc,
